@@ -1,0 +1,12 @@
+//go:build verif
+
+package auditlog
+
+// Contracts for the verification tooling (build tag "verif"). Comment-only: never compiled into the daemon.
+
+//@ func (*AuditLogIngester).Process
+//@   requires a != nil
+//@   modifies chans
+//@   ensures[nil] result == nil
+//@   ensures[forward] sentlen(a.AuditLogChan) == old(sentlen(a.AuditLogChan)) + 1
+//@   |   && sent(a.AuditLogChan, old(sentlen(a.AuditLogChan))).value == line
